@@ -31,7 +31,7 @@ USERS = ('ua', 'ub', 'uc')
 PATHS = ('f/a.mp3', 'f/b.mp3')
 DIRS = ('d/a', 'd/b')
 WRONG_TICKET = 7999
-N_RANDOM = {'quick': 2860, 'thorough': 80080}     # per 13: 3 suspended-handler, 2 call-race, 8 general
+N_RANDOM = {'quick': 2860, 'thorough': 640640}     # per 13: 3 suspended-handler, 2 call-race, 8 general
 
 RULE = (
     "One case = one history on one simulated world (client 'me' + scripted server + peers p1,p2 with established P "
